@@ -18,6 +18,7 @@ EXPLANATION = (
     "call, and _update_in_memory_cache removes `cached - listed` and adds `listed - cached`, neither step being conditional "
     "on the other set being non-empty; values added come from the validating workspace reader."
     ' (e) No mutable object bound in a class body (Project, Job, JobsCursor, _StatePointDict) is modified through an instance; (f) the cache-filling loops carry nothing from one id to the next.'
+    ' A helper that slices a parameter is never handed a value that is evidently a set; in _read_cache the file content overrides entries already in memory.'
 )
 UNDECIDED = "Equality of query results with a fresh / stale / deleted cache file over histories is behavioural and not decided."
 
